@@ -95,6 +95,8 @@ class Call2Mixin:
     if cls is not None:
       env['__class_node__'] = cls
     self.call_depth += 1
+    if self.call_depth == 1:
+      self.top_env = env             # locals of the function under verification (for at_wait clauses)
     self.module_stack.append(mod)
     try:
       try:
@@ -208,6 +210,11 @@ class Call2Mixin:
               continue
             self.path.ctx = f'assumed exceptional postcondition [{exc}] of {c.short}: {e}'
             self.assume(self.spec(e, env3, old))
+          # the callee raises exc only where its exceptional postconditions can hold: if they contradict what
+          # is known here, this exit does not exist at this call site (no vacuity alarm: the callee is verified
+          # against the same clauses, so a state in which it does raise satisfies them)
+          if not self.ex.feasible(self.path.pc, z3.BoolVal(True)):
+            raise PathEnd()
           raise PyRaise(ev_)
     # frame: havoc what the callee may modify
     for path in c.modifies:
